@@ -1076,7 +1076,7 @@ class C11(core.Check):
         cases: List[dict] = []
         if tier == "quick":
             plan = {k: 4 for k in kinds}
-            plan.update(ExtrudedShape=4, RevolvedShape=6, LoftedShape=6, ExtrudedStack=6, TransformedStack=6, RevolvedStack=5, Chain=11, NJoint=3, ExtrudedRing=6, RevolvedRing=5)
+            plan.update(ExtrudedShape=4, RevolvedShape=6, LoftedShape=6, ExtrudedStack=6, TransformedStack=6, RevolvedStack=5, Chain=9, NJoint=1, ExtrudedRing=6, RevolvedRing=5)
         else:
             plan = {k: 40 for k in kinds}
             plan.update(ExtrudedShape=150, RevolvedShape=80, LoftedShape=80, ExtrudedStack=80, TransformedStack=60, RevolvedStack=50, Chain=300, NJoint=60)
